@@ -2,6 +2,7 @@ package props
 
 import (
 	"fmt"
+	"strings"
 
 	"github.com/AsaiYusuke/jsonpath"
 
@@ -142,7 +143,62 @@ func checkC03(c *Case, st *Stats) string {
 	return ""
 }
 
+// checkC03Reduced: every sentence of the reduced grammar that Parse accepts (under the case's
+// Config) is evaluated on the small document, on the hard documents (every JSON type side by
+// side, numbers beyond the float64 range, UseNumber) and on a document built in Go whose members
+// hold values of one uncomparable type: each evaluation ends in values or a documented error.
+func checkC03Reduced(c *Case, st *Stats) string {
+	Journal(c.Check, c.Path, "", flagString(c))
+	rec := &Recorder{}
+	f, err := parseWith(c.Path, c.Funcs, c.Accessor, rec)
+	if err != nil || f == nil {
+		st.Class("parse:rejected")
+		return ""
+	}
+	st.Class("parse:accepted")
+	docs := []interface{}{gen.MustDecode(tinyDoc, false), goBuiltHardDoc()}
+	for _, hd := range hardDocs {
+		docs = append(docs, gen.MustDecode(hd, true), gen.MustDecode(hardDocFloat(hd), false))
+	}
+	for i, doc := range docs {
+		rec.Errs = 0
+		got, rerr := f(doc)
+		st.Eval(1)
+		if msg := runtimeOutcome(got, rerr); msg != "" {
+			return fmt.Sprintf("on document %d: %s", i, msg)
+		}
+		if DescribeErr(rerr).Type == "ErrorFunctionFailed" && rec.Errs == 0 {
+			return fmt.Sprintf("on document %d: ErrorFunctionFailed although no user function returned an error: %v", i, rerr)
+		}
+	}
+	st.Class("nontrivial")
+	st.NonTrivialCase(c.Path+fmt.Sprint(c.Funcs, c.Accessor), func() interface{} {
+		return map[string]interface{}{"path": c.Path, "funcs": c.Funcs, "accessor": c.Accessor, "documents": len(docs)}
+	})
+	return ""
+}
+
+// hardDocFloat is the hard document with the numbers float64 cannot hold replaced.
+func hardDocFloat(s string) string {
+	s = strings.ReplaceAll(s, "-1e400", "-1e300")
+	s = strings.ReplaceAll(s, "1e400", "1e300")
+	s = strings.ReplaceAll(s, "-1e999", "-1e308")
+	return strings.ReplaceAll(s, "1e999", "1e308")
+}
+
+// goBuiltHardDoc: values encoding/json never produces, several of one uncomparable Go type, under
+// the names the reduced grammar uses.
+func goBuiltHardDoc() interface{} {
+	tags := func() interface{} { return []string{"x", "y"} }
+	return map[string]interface{}{
+		"a": tags(), "b": tags(), "c": map[string]int{"n": 1},
+		"list": []interface{}{map[string]interface{}{"a": tags(), "b": tags()}, map[string]interface{}{"a": map[string]int{"n": 1}, "b": map[string]int{"n": 1}}, tags(), 1.0},
+		"0":    []interface{}{tags(), tags()},
+	}
+}
+
 func init() {
+	Register("TestC03_Reduced", checkC03Reduced)
 	Register("TestC03_Total", checkC03)
 	Register("TestC03_Text", checkC03Text)
 	for _, p := range []string{"$[1::9223372036854775807]", "$[::-9223372036854775808]", "$[-9223372036854775808:9223372036854775807:9223372036854775807]", "$[9223372036854775807]", "$[-9223372036854775808]"} {
